@@ -3,15 +3,15 @@ SPEC = dict(
     legs=[dict(family="hashes", oracles=["prop_ok"], profiles=["debug", "release"])],
     level_text="Theorems (Props/C16.v): for every seed and every chunking of every byte string the modelled streaming "
                "MurmurHash3-x64-128 and XXH64 hashers equal the one-shot reference functions (invariant over chunk lists, "
-               "generic block-absorption lemmas); hash_u64 = XXH64 of 8 LE bytes; range theorems for every derived quantity; "
+               "generic block-absorption lemmas); hash_u64 = XXH64 of 8 LE bytes; range theorems for every derived quantity and, for every chunking of the item bytes, each derived quantity (HLL coupon, theta hash, CPC (row,col), Count-Min bucket, Bloom digests) equals the reference derivation applied to the one-shot digest of the concatenation; "
                "the source's constants and inline literals (re-read by the translator each run) equal the published ones. "
                "Tie: crate digest = model digest = independent Python reference on all lengths 0..200, all 2^(n-1) chunkings "
-               "for small n, and derived quantities of HLL/theta/Count-Min/Bloom through the public API for i64, str and tuple items.",
-    level_note="Trusted: Coq kernel; my transcription of the public algorithms (validated by published vectors in an Example and "
+               "for small n, and derived quantities of HLL/theta/CPC/Count-Min/Bloom through the public API (CPC through the state-dump hook) for i64, str and tuple items.",
+    level_note="Trusted: Coq kernel; my transcription of the public algorithms (validated by published vectors in Examples (MurmurHash3 quick-brown-fox digest; xxHash sanity-check vectors of lengths 0, 1, 32, 33, 100 for seeds 0 and PRIME32) and "
                "by an independent Python transcription); std's Hash impls' byte sequences for i64/&str/tuples; translator; harness.",
     technique="Coq proof by invariant over write sequences (Base/Absorb.v) + differential correspondence incl. exhaustive small chunkings",
     trusted=["reference algorithm = my Gallina transcription of MurmurHash3_x64_128 / XXH64, pinned by published vectors",
              "tools/pyref.py: independent Python transcription used as the oracle's expected digests",
-             "CPC (row, col) derivation is proved in range here and tied to the crate in the C05 correspondence (needs a hook)"],
+             "the one-shot reference functions share the block/tail/finalisation definitions with the streaming model (Base/Absorb.v); their independence rests on the published vectors and on tools/pyref.py"],
     assumptions=["byte strings shorter than 2^64 bytes (the model's length counter is unbounded, the crate's is u64)"],
 )
